@@ -481,7 +481,7 @@ def run_chunk(spec):
                 continue
             jobs.append(("async", delays, kind, guard1, nested, script, tmpl + ":" + name,
                          name == "idle"))
-    nrand = 40 if tier == "quick" else 1500
+    nrand = 40 if tier == "quick" else 15000
     for j in range(nrand * NCHUNKS):
         delays, kind, guard1, nested = variants[j % len(variants)]
         jobs.append(("async", delays, kind, guard1, nested, None, "random", False))
